@@ -146,7 +146,7 @@ def gen_xml(seed, idx, n_comp=4):
 
 
 def open_db(src, seed=0):
-    """src: 'example:<file name>' | 'rich:<name>' | 'richall' | 'seq:<name>' | 'gen:<idx>' | 'xdoc:<partition>[:rev]'"""
+    """src: 'example:<file name>' | 'rich:<name>' | 'richall' | 'seq:<name>' | 'gen:<idx>' | 'xdoc:<partition>[:rev]' | 'namesake:<base>/<renames>'"""
     from odxtools.database import Database
     kind, _, arg = src.partition(":")
     with warnings.catch_warnings():
@@ -172,6 +172,13 @@ def open_db(src, seed=0):
             code, _, rev = arg.partition(":")
             m = R.xdoc_members(code)
             return R.load_docs([m[n] for n in R.xdoc_parent_first(code, reverse=bool(rev))])
+        if kind == "namesake":  # documents sharing a short name across categories, put together from isolated parses (no loader history)
+            base, _, code = arg.partition("/")
+            members, aux, _ = namesake_members(base, code)
+            db, err = L.load_isolated(members, aux)
+            if db is None:
+                raise RuntimeError(err)
+            return db
         if kind == "gen":
             xml, _ = gen_xml(seed, int(arg))
             db = Database()
@@ -322,6 +329,14 @@ def observed_of(d):
     return "altered"
 
 
+def unresolved_feature(err):
+    """which kind of document an ODXLINK reference that cannot be resolved after the reload points into (from the message of
+    OdxLinkDatabase.resolve): tells a wrong DOCREF to a comparam subset from one to a container"""
+    import re
+    m = re.search(r"could not be resolved.*?doc_type=<DocType\.([A-Z_]+)", err or "", re.S)
+    return ["unresolved:" + m.group(1)] if m else []
+
+
 def roundtrip(src, seed=0):
     """-> dict(findings=[(clause, features, observed, detail)], stats)"""
     out = {"src": src, "findings": [], "objects": 0, "classes": [], "ok": False, "fields": 0}
@@ -341,7 +356,7 @@ def roundtrip(src, seed=0):
     db2, err = L.load_pdx_bytes(pdx1)
     if db2 is None:
         kind = "xml-parse-error" if err.startswith("xml-parse-error") else "reload-raises"
-        out["findings"].append((kind, ["whole-database", err.split(":")[1] if ":" in err else err], kind, err))
+        out["findings"].append((kind, ["whole-database", err.split(":")[1] if ":" in err else err] + unresolved_feature(err), kind, err[:240]))
         return out
     diffs = L.diff(L.db_tree(db, resolve=True), L.db_tree(db2, resolve=True), limit=300)
     for d in diffs:
@@ -886,6 +901,139 @@ def xdoc_checks(ctx, pool, big):
             ctx.violate("load-order-independence", feats, obs, wit, what)
 
 
+# ---- namesake family: documents of different categories (and a document and a layer) that carry the same short name
+_NAMESAKE = {}
+
+
+def namesake_bases():
+    """file sets that contain documents of all three categories: the shipped example and a two-container distribution of the
+    cross-document hierarchy (with its COMPARAM-SUBSET and COMPARAM-SPEC documents); -> {base: (members, auxiliary files)}"""
+    if not _NAMESAKE:
+        ex = example_files()[0]
+        with zipfile.ZipFile(ex) as z:
+            members = {n: z.read(n) for n in z.namelist() if Path(n).suffix.lower().startswith(".odx")}
+            aux = {n: z.read(n) for n in z.namelist() if n not in members and n.lower() != "index.xml" and not n.endswith(".orig")}
+        _NAMESAKE["example"] = (members, aux)
+        _NAMESAKE["xdoc"] = ({n: x.encode() for n, x in R.xdoc_members("00011").items()}, {})
+    return _NAMESAKE
+
+
+def namesake_variants(members):
+    """every way to give ONE document the name of a document of another category or of a diagnostic layer (never the name of a
+    document of its own category: that is not legal), and every way to put a document of each category under one name;
+    -> [(code 'member=new name[;member=new name]', (category of the renamed document | 'all', kind of the name's owner))]"""
+    infos = {n: L.doc_info(d) for n, d in members.items()}
+    files = sorted(infos)
+    names = [(infos[f]["name"], infos[f]["kind"]) for f in files] + [(l, "layer") for f in files for l in infos[f]["layers"]]
+    out = {}
+    for f in files:
+        own = {j["name"] for j in infos.values() if j["kind"] == infos[f]["kind"]}
+        for nm, k in names:
+            if nm not in own:
+                out.setdefault(f"{f}={nm}", (infos[f]["kind"], k))
+    by = {k: [f for f in files if infos[f]["kind"] == k] for k in ("dlc", "subset", "spec")}
+    for k, fs in by.items():
+        for t in fs:
+            others = [by[o][(files.index(t)) % len(by[o])] for o in by if o != k and by[o]]
+            if len(others) == 2:
+                out.setdefault(";".join(f"{f}={infos[t]['name']}" for f in others), ("all", k))
+    return list(out.items())
+
+
+def namesake_members(base, code):
+    members, aux = namesake_bases()[base]
+    renamed = []
+    for part in code.split(";"):
+        f, _, nm = part.partition("=")
+        members = L.rename_document(members, f, nm)
+        renamed.append(nm + Path(f).suffix)
+    return members, aux, renamed
+
+
+def namesake_orders(members, renamed, exhaustive):
+    """alphabetical, reversed (both relative orders of every pair of documents), each renamed document and each namesake of it
+    first; exhaustive: every document first and last once"""
+    names = sorted(members)
+    stems = {Path(r).stem for r in renamed}
+    front = [n for n in names if exhaustive or Path(n).stem in stems]
+    orders = [names, names[::-1]] + [[n] + [x for x in names if x != n] for n in front]
+    if exhaustive:
+        orders += [[x for x in names if x != n] + [n] for n in names]
+    return [list(o) for o in dict.fromkeys(tuple(o) for o in orders)]
+
+
+NAMESAKE_HOWS = ("trees", "zip", "files", "dir", "odxfile", "pdxpath", "zipobj", "trees-stepwise", "trees-refresh-twice")
+
+
+def namesake_findings(base, code, exhaustive, shift=0):
+    """reference: the database put together from documents parsed in isolation (no loader call history); every order / entry
+    point must give that database; -> (number of cases, [(features, observed, witness, what)])"""
+    members, aux, renamed = namesake_members(base, code)
+    refdb, err = L.load_isolated(members, aux)
+    wit = {"kind": "namesake-order", "base": base, "code": code}
+    if refdb is None:
+        return 1, [(["isolated", "namesake-documents"], err.split(":")[0] if err.startswith("odx") or err.startswith("xml") else ":".join(err.split(":")[:2]),
+                    dict(wit, order=None, how="isolated"), f"{base} with {code}: the documents parsed one by one cannot be put together ({err})")]
+    ref = loaded_image(refdb)
+    out, n = [], 0
+    tmp = tempfile.mkdtemp(prefix="c11n_")
+    try:
+        for j, o in enumerate(namesake_orders(members, renamed, exhaustive)):
+            for how in (NAMESAKE_HOWS if exhaustive else (NAMESAKE_HOWS[(shift + 2 * j) % 9], NAMESAKE_HOWS[(shift + 2 * j + 1) % 9])):
+                sub = os.path.join(tmp, f"{j}_{how}")
+                os.mkdir(sub)
+                img, err = order_images(members, o, how, sub, aux=aux)
+                shutil.rmtree(sub, ignore_errors=True)
+                n += 1
+                if img != ref:
+                    d = L.diff(ref, img)[:2] if img is not None else []
+                    out.append(([how, "namesake-documents"] + sorted({image_part(x) for x in d}), err or "differs", dict(wit, order=o, how=how),
+                                f"{base} with {code} (documents of different categories / a layer with the same short name): loading {o} via {how} "
+                                f"does not give the database the documents describe ({err or [(x['path'], x['left'], x['right']) for x in d]})"[:700]))
+    finally:
+        shutil.rmtree(tmp, ignore_errors=True)
+    return n, out
+
+
+def _wnamesake(task):
+    base, code, exhaustive, shift = task
+    try:
+        return (base, code), namesake_findings(base, code, exhaustive, shift)
+    except Exception as e:
+        return (base, code), (0, [(["harness"], "foreign:" + type(e).__name__, {"kind": "namesake-order", "base": base, "code": code}, "harness: " + str(e)[:200])])
+
+
+def namesake_selection(big, rng):
+    """thorough: every variant; quick: one per (category of the renamed document, kind of the name's owner) and base"""
+    sel = []
+    for base, (members, _) in namesake_bases().items():
+        try:
+            vs = namesake_variants(members)
+        except Exception:
+            continue
+        if not big:
+            by = collections.OrderedDict()
+            for code, sig in vs:
+                by.setdefault(sig, []).append(code)
+            vs = [(rng.choice(codes), sig) for sig, codes in by.items()]
+        sel += [(base, code, sig) for code, sig in vs]
+    return sel
+
+
+def namesake_checks(ctx, pool, big, sel):
+    for (base, code), (n, findings) in pool.map(_wnamesake, [(b, c, big, i) for i, (b, c, _) in enumerate(sel)], chunksize=1):
+        ctx.count("namesake_loads", n)
+        for j in range(n):
+            ctx.case(("namesake-order", base, code, j))
+        for feats, obs, wit, what in findings:
+            if feats == ["harness"]:
+                ctx.notes.append(f"namesake {base} {code}: {what}")
+                continue
+            ctx.violate("load-order-independence", feats, obs, wit, what)
+    for _, _, sig in sel:
+        ctx.histo("namesake_variant", sig[0] + "<-" + sig[1])
+
+
 # ---- derived state against the Lean model
 def _ddds(attr):
     return lambda dl: list(getattr(dl.diag_layer_raw.diag_data_dictionary_spec, attr)) if dl.diag_layer_raw.diag_data_dictionary_spec is not None else []
@@ -948,7 +1096,9 @@ def effective_lines(db, fuel=8):
             for pr in getattr(dl.diag_layer_raw, "parent_refs", []):
                 ref = pr.layer_ref
                 excl = " ".join(str(names.setdefault(x, len(names) + 1)) for x in ni_of(pr))
-                prs += f" (({ref.ref_docs[0].doc_name} {ref.ref_id}){' ' + excl if excl else ''})"
+                dt = getattr(getattr(ref.ref_docs[0], "doc_type", None), "value", "CONTAINER")      # DOCREF + DOCTYPE: the fragment
+                dt = dt if dt in ("CONTAINER", "COMPARAM-SUBSET", "COMPARAM-SPEC") else "CONTAINER"
+                prs += f" (({ref.ref_docs[0].doc_name} {dt} {ref.ref_id}){' ' + excl if excl else ''})"
             raws.append(f"(o {num[id(dl)]} {dl.variant_type.value} (cps {cps_raw[id(dl)]}) (locals {' '.join(obj(o) for o in local_of(dl))}) (parents{prs}))")
         for dl, (fr, i) in zip(layers, keys):
             try:
@@ -1031,9 +1181,22 @@ def order_model_correspondence(ctx, rng, n):
         k = rng.randint(1, 5)
         files = []
         vers = rng.choice([["2.2.0"], ["2.2.0"], ["2.0.0"], ["2.2.0", "2.0.0"], ["2.2.0", "2.2.1"]])
+        # every other file set draws the short names from a pool of two: documents of different categories then share a
+        # name (namesakes; legal — a document is identified by name AND type); never two documents of one fragment
+        pool_names = i % 2 == 1
+        used = set()
         for j in range(k):
             kind = rng.choice(["dlc", "dlc", "subset", "spec"])
-            files.append((f"F{j}", kind, rng.choice(vers)))
+            v = rng.choice(vers)
+            doctype = "dlc" if kind == "dlc" else "spec" if kind == "spec" and Version(v) >= Version("2.2") else "subset"
+            name = f"F{j}"
+            if pool_names:
+                free = [n for n in ("N", "M") if (n, doctype) not in used]
+                name = rng.choice(free) if free else name
+            used.add((name, doctype))
+            files.append((name, kind, v))
+        if len({f for f, _, _ in files}) < len(files):
+            ctx.count("order_model_namesake_sets")
         vnum = {"2.0.0": 200, "2.2.0": 220, "2.2.1": 221}
         line = "(load " + " ".join(f"(f {f} {kd} {'t' if Version(v) < Version('2.2') else 'f'} {vnum[v]}" + (" (x 1)" if kd != "spec" else "") + ")" for f, kd, v in files) + ")"
         try:
@@ -1045,7 +1208,7 @@ def order_model_correspondence(ctx, rng, n):
                 links = db._build_odxlinks()
             lk = []
             for oid in links:
-                lk.append((oid.doc_fragments[0].doc_name, oid.local_id))
+                lk.append((oid.doc_fragments[0].doc_name + " " + oid.doc_fragments[0].doc_type.value, oid.local_id))
             keys = [(a, b) for a, b in lk if b == "x"]
             impl = ("(ok (" + " ".join(["dlcs"] + [c.short_name for c in db.diag_layer_containers]) + ") ("
                     + " ".join(["subsets"] + [c.short_name for c in db.comparam_subsets]) + ") ("
@@ -1379,7 +1542,10 @@ def run(ctx):
     if big:
         xsel = xparts
     xdocs = [f"xdoc:{c}{r}" for c in xsel for r in ("", ":rev") if r == "" or len(set(c)) > 1]
-    whole = examples + rich + ["rich:rvars", "rich:rwide", "richall"] + seq_sources() + xdocs + gens
+    # documents of different categories (and a document and a layer) under one short name
+    nsel = namesake_selection(big, ctx.sub_rng("namesake"))
+    ctx.count("namesake_variants", len(nsel))
+    whole = examples + rich + ["rich:rvars", "rich:rwide", "richall"] + seq_sources() + xdocs + [f"namesake:{b}/{c}" for b, c, _ in nsel] + gens
     donors = examples[:1] + rich
 
     import time
@@ -1460,6 +1626,9 @@ def run(ctx):
         # ---- 2b. the cross-document hierarchy in every distribution over documents and every document order
         xdoc_checks(ctx, pool, big)
         phase("xdoc-orders")
+        # ---- 2c. namesake documents in every relative order through every entry point
+        namesake_checks(ctx, pool, big, nsel)
+        phase("namesake-orders")
         ctx.sample({"perturbation": {k: results[len(corpus)][k] for k in ("src", "path", "field", "kind", "status")}} if len(results) > len(corpus) else {})
 
     # ---- 3. load order and entry points
@@ -1569,6 +1738,19 @@ def replay(ctx, data):
         finally:
             shutil.rmtree(tmp, ignore_errors=True)
         return img is not None and img == ref
+    if kind == "namesake-order":
+        members, aux, _ = namesake_members(w["base"], w["code"])
+        refdb, _ = L.load_isolated(members, aux)
+        if refdb is None:
+            return False
+        if w.get("order") is None:
+            return True
+        tmp = tempfile.mkdtemp(prefix="c11_")
+        try:
+            img, _ = order_images(members, w["order"], w["how"], tmp, aux=aux)
+        finally:
+            shutil.rmtree(tmp, ignore_errors=True)
+        return img is not None and img == loaded_image(refdb)
     if kind == "escape":
         import odxtools.writepdxfile as W
         s = "".join(chr(c) for c in w["cp"])
